@@ -33,7 +33,7 @@ def seg(ev, what):
     return ev.kind == "call" and ev.extra != "inlined" and short(ev.name) == what and "SegQueue" in ev.name
 
 
-def analyse_sender(f, rep, co, label, push_before_write_ok=False, param_pred=None):
+def analyse_sender(f, rep, co, label, push_before_write_ok=False, param_pred=None, split_halves=False):
     nw = nempty = nskip = nok = nerr = 0
     for p in pathq.paths(f, co, max_visits=2):
         pops = [(i, ev) for i, ev in enumerate(p.events) if seg(ev, "pop")]
@@ -85,6 +85,14 @@ def analyse_sender(f, rep, co, label, push_before_write_ok=False, param_pred=Non
         elif rk == "Err":
             nerr += 1
             ok_push = len(pushed_this) <= 1
+            # "forgotten" = everything held for that connection: where the read half lives in a separate receive queue (the generic
+            # backend), removing the table entry alone keeps the transport open - peer_disconnected (which releases both: C16 R16.1 /
+            # R16.4), or the table removal together with QueueInner::remove, is required
+            if split_halves:
+                both = any("peer_disconnected" in e.name for e in forgets) or (
+                    bool(forgets) and any(ev.kind == "call" and short(ev.name) == "remove" and "QueueInner" in ev.name for ev in p.events[wi:]))
+                rep.check(both, "R10.3", "R10.3|%s|write-error-releases-both-halves" % label,
+                          "%s: after a failed write the peer's table entry AND its queued read half are released (%s)" % (label, [short(e.name) for e in forgets]), co.loc())
             rep.check(ok_push and not later_pops and bool(forgets), "R10.3", "R10.3|%s|write-error" % label,
                       "%s: after a failed write the peer is forgotten (%s) and the rotation is not touched again (pushes of it: %d, compensating pops: %d)" % (
                           label, [short(e.name) for e in forgets], len(pushed_this), len(later_pops)), co.loc())
@@ -124,7 +132,13 @@ def run(ctx, f, rep):
           and "::test" not in b.path and scope_calls(b, "pop")]
     rep.floor("R10.1", "shared round-robin sender (async fn popping the SegQueue rotation)", len(rr), 1)
     for co in rr:
-        analyse_sender(f, rep, co, "send_round_robin",
+        # does the backend this sender belongs to keep the read halves in a separate receive queue?
+        owner = f.body(co.j.get("parent")) if co.j.get("parent") else None
+        split = False
+        if owner is not None:
+            self_ty = (owner.j.get("impl_self") or owner.path.rsplit("::", 1)[0]).split("::")[-1]
+            split = any(p_.split("::")[-1] == self_ty and any("QueueInner" in x["ty"] for x in a["variants"][0]["fields"]) for p_, a in f.adts.items() if a["kind"] == "Struct")
+        analyse_sender(f, rep, co, "send_round_robin", split_halves=split,
                        param_pred=lambda e: any(isinstance(x, tuple) and x and x[0] == "field" and x[1] == ("arg", 1) for x in walk_expr(e)))
     co = socket_coroutine(f, "SocketSend", "send", "ReqSocket")
     if co is None:
